@@ -72,6 +72,12 @@ C04_MessageOnce ==
 C04_UnknownEndsSessionRaw ==
     \A s \in Sid : "AsyncUnknownTypeSwallowed" \in g.dev => g.ss[s].closed \/ ~g.ss[s].used
 
+\* C14: after an oversize POST the session is over (the model's OVERSIZE body)
+C14_OversizeEndsSession ==
+    \A s \in Sid : \A i \in 1..Len(g.out) :
+        (g.out[i].k = "resp" /\ g.out[i].status = 400 /\ g.ss[s].used /\ g.ss[s].conn
+         /\ g.cause[s] = "server") => g.ss[s].closed
+
 ---------------------------------------------------------------------------
 (* C05: connect first, one disconnect, reason = first cause *)
 C05_EventShape ==
